@@ -42,6 +42,7 @@ type clientSpec struct {
 	Base64   string      `json:"b64"`   // connect_get: "", "1", "0", "bad"
 	NoFlush  bool        `json:"noflush"`
 	Rej      string      `json:"rej"`      // rejection class the generator aimed at ("" = none)
+	EOFData  bool        `json:"eofdata"`  // the body's last bytes and io.EOF arrive in the same Read result
 	GetDelta string      `json:"getdelta"` // C19: max GET URL length relative to the exact URL length: "", m1, 0, p1
 }
 
